@@ -340,11 +340,14 @@ def run(ctx):
                     continue
                 if "ign" in rules and "ign" not in lay["dirs"]:
                     continue
-                if level == 0 and li > 0 and len(rules) not in (0, len(RULES)):
+                full = len(lay["files"]) >= 9 and lay["nested"] and lay["helpers"] == 2
+                if level == 0 and not full and len(rules) not in (0, len(RULES)):
                     continue          # quick: reduced layouts only with no rule / all rules
+                if level == 1 and not full and len(rules) not in (0, 1, len(RULES)):
+                    continue          # thorough: other layouts with no rule / each single rule / all rules
                 v0s = v0_candidates(kind, lay, level)
-                if level == 0 and li > 0:
-                    v0s = v0s[:2]
+                if not full:
+                    v0s = v0s[:2] if level == 0 else v0s[:3]
                 for v0 in v0s:
                     items.append((kind, li, rules, v0))
     raw = par.pmap(_work, items, seed=ctx.seed)
